@@ -82,7 +82,8 @@ func (e WorkloadGenerator) GenerateDeltas(
 	// Fortunately, we do not actually need this: the only time we need to know the state in Ztunnel is on reconnection which we handle from
 	// `req.Delta.Subscribed`.
 
-	return resources, removed.UnsortedList(), model.XdsLogDetails{}, true, nil
+	// sorted: the removals are sent as they are returned, and must not depend on the iteration order of the set
+	return resources, sets.SortedList(removed), model.XdsLogDetails{}, true, nil
 }
 
 func appendAddress(
@@ -188,7 +189,8 @@ func (e WorkloadGenerator) generateDeltasOndemand(
 	// For on-demand, we may have requested a VIP but gotten Pod IPs back. We need to update
 	// the internal book-keeping to subscribe to the Pods, so that we push updates to those Pods.
 	w.ResourceNames = subs.Merge(have)
-	return resources, removed.UnsortedList(), model.XdsLogDetails{}, true, nil
+	// sorted: the removals are sent as they are returned, and must not depend on the iteration order of the set
+	return resources, sets.SortedList(removed), model.XdsLogDetails{}, true, nil
 }
 
 type WorkloadRBACGenerator struct {
